@@ -113,6 +113,8 @@ def classify(v):
 
 
 def replay(case):
+    if case.get("mode") == "onchain":
+        return oracle_onchain(case)
     if case.get("mode") == "contract":
         return oracle_contract(case)
     oracle(case)
@@ -230,7 +232,69 @@ def _prop(case, stats):
                sample={"code": xc._short(case["code"])[:300]})
 
 
+def onchain_cases():
+    """GET / GET_AND_UPDATE on a big_map that lives on a (simulated) node, for key / value types whose literals look alike (a value
+    that also parses at the key type must still come back at the value type)."""
+    T = rv.T
+    combos = [(T("nat"), T("int"), 7, 7), (T("int"), T("nat"), 7, 7), (T("nat"), T("mutez"), 7, 7), (T("nat"), T("timestamp"), 7, 7),
+              (T("string"), T("address"), "a", None), (T("nat"), T("option", T("nat")), 7, ("Some", 7)), (T("bytes"), T("chain_id"), b"\x01\x02\x03\x04", b"\x01\x02\x03\x04"),
+              (T("nat"), T("pair", T("nat"), T("int")), 7, (1, 2)), (T("string"), T("bytes"), "a", b"\x01")]
+    out = []
+    for kt, vt, k, v in combos:
+        if v is None:
+            v = rv.from_micheline(vt, {"string": "tz1Ke2h7sDdakHJQh8WX4Z372du1KChsksyU"})
+        for ins in ("GET", "GET_AND_UPDATE-none", "GET_AND_UPDATE-some", "MEM"):
+            out.append({"mode": "onchain", "kt": kt, "vt": vt, "k": rv.to_micheline(kt, k), "v": rv.to_micheline(vt, v), "ins": ins})
+    return out
+
+
+def oracle_onchain(case):
+    from hashlib import blake2b
+    from pytezos.michelson.stack import MichelsonStack
+    from pytezos.michelson.types.base import MichelsonType
+    from vlib import fake_node
+    from vlib import ref_crypto as rc
+    kt, vt = case["kt"], case["vt"]
+    node = fake_node.FakeNode()
+    key = rv.from_micheline(kt, case["k"])
+    h = rc.tz_encode(blake2b(rv.pack(kt, key, legacy=True), digest_size=32).digest(), "expr")
+    node.big_maps[5] = {h: rv.to_micheline(vt, rv.from_micheline(vt, case["v"]), "optimized")}
+    ctx = interp.new_context()
+    ctx.shell = fake_node.shell(node)
+    bm = MichelsonType.match(rv.T("big_map", kt, vt)).from_micheline_value({"int": "5"})
+    bm.attach_context(ctx)
+    stack = MichelsonStack()
+    stack.push(bm)
+    optv = rv.T("option", vt)
+    ins = case["ins"]
+    if ins == "GET":
+        code, want_t = [interp.push(kt, case["k"]), {"prim": "GET"}], optv
+    elif ins == "MEM":
+        code, want_t = [interp.push(kt, case["k"]), {"prim": "MEM"}], rv.T("bool")
+    else:
+        new = {"prim": "None"} if ins.endswith("none") else {"prim": "Some", "args": [case["v"]]}
+        code, want_t = [interp.push(optv, new), interp.push(kt, case["k"]), {"prim": "GET_AND_UPDATE"}], optv
+    stk, out, err = interp.run(code, stack=stack, context=ctx)
+    if err is not None:
+        raise Violation("%s on an on-chain big_map %s -> %s failed: %r" % (ins, kt, vt, err.args), case, "onchain:raise:" + ins)
+    ty, m = interp.read_item(stk.items[0])
+    if ty != want_t:
+        raise Violation("%s on an on-chain big_map (key %s, value %s) left a value of type %s, the typing rule gives %s" % (
+            ins, kt, vt, ty, want_t), case, "onchain:type:" + ins)
+    errs = xc.deep_type_errors(stk.items[0])
+    if errs:
+        raise Violation("%s on an on-chain big_map: %s" % (ins, errs[:2]), case, "onchain:deep:" + ins)
+    if ins != "MEM" and interp.parse_output(optv, m, "result") != ("Some", rv.from_micheline(vt, case["v"])):
+        raise Violation("%s on an on-chain big_map returned %s, on chain: %s" % (ins, m, case["v"]), case, "onchain:value:" + ins)
+
+
+def _prop_onchain(case, stats):
+    oracle_onchain(case)
+    stats.case(case, True, "onchain:" + case["ins"], sample={"key_type": case["kt"], "value_type": case["vt"]})
+
+
 def run(h):
+    h.run_enum(onchain_cases(), _prop_onchain, shards=4)
     passed, skipped = selfcheck.ref_interp_vectors()
     h.coverage_extra["reference_validated"] = "reference interpreter reproduces %d Octez opcode vectors" % passed
     size, depth = ((1, 8), 2) if h.quick else ((1, 16), 3)
